@@ -689,7 +689,9 @@ class PCtx:
 
     def sample(self, extra_vars=(), rng=None, tries=40):
         """random assignment over F_q (q = 2^61-1) satisfying all hypotheses, or None"""
-        q = self.Q61
+        q = self.sample_modulus()
+        if q is None:
+            return None
         rng = rng or random.Random(0)
         allv = set(extra_vars)
         for v, (n, d) in self.subs.items():
@@ -745,6 +747,13 @@ class PCtx:
             return env
         return None
 
+    def sample_modulus(self):
+        """the prime field in which counter-examples are sampled: the known characteristic when there is one
+        (only if it is 3 mod 4, which the quadratic solver needs), otherwise the 61-bit Mersenne prime"""
+        if self.char is None:
+            return self.Q61
+        return self.char if self.char % 4 == 3 else None
+
     def refute_zero(self, p, rng=None, n=6):
         """look for an assignment satisfying the hypotheses where p != 0.
         returns ('witness', env) / ('no-witness', samples_tried) / ('no-sample', 0)"""
@@ -756,7 +765,7 @@ class PCtx:
             if env is None:
                 continue
             tried += 1
-            if p.eval_mod(env, self.Q61) != 0:
+            if p.eval_mod(env, self.sample_modulus()) != 0:
                 return "witness", env
         return ("no-witness", tried) if tried else ("no-sample", 0)
 
@@ -769,7 +778,7 @@ class PCtx:
             if env is None:
                 continue
             tried += 1
-            if p.eval_mod(env, self.Q61) == 0:
+            if p.eval_mod(env, self.sample_modulus()) == 0:
                 return "witness", env
         return ("no-witness", tried) if tried else ("no-sample", 0)
 
